@@ -434,6 +434,62 @@ def register(E):
     B['slice::sort_by'] = slice_sort_by
     B['slice::sort_unstable_by'] = slice_sort_by
 
+    def it_take_while(e, a, c):
+        out = []
+        it = a[0]
+        while True:
+            x = it_next(e, it)
+            if x.variant == 0:
+                break
+            cell = [x.fields[0]]
+            if not e.branch(e.call_value(a[1], [Ref(cell, 0)])):
+                break
+            out.append(x.fields[0])
+        return IterV('slice', vec=VecV(out), i=0, j=len(out), by_ref=False)
+    B['Iterator::take_while'] = it_take_while
+
+    def it_skip_while(e, a, c):
+        items = drain(e, a[0])
+        i = 0
+        while i < len(items):
+            cell = [items[i]]
+            if not e.branch(e.call_value(a[1], [Ref(cell, 0)])):
+                break
+            i += 1
+        rest = items[i:]
+        return IterV('slice', vec=VecV(rest), i=0, j=len(rest), by_ref=False)
+    B['Iterator::skip_while'] = it_skip_while
+
+    def it_partition(e, a, c):
+        yes, no = [], []
+        for x in drain(e, a[0]):
+            cell = [x]
+            (yes if e.branch(e.call_value(a[1], [Ref(cell, 0)])) else no).append(x)
+        return Agg('tuple', None, [VecV(yes), VecV(no)])
+    B['Iterator::partition'] = it_partition
+
+    def it_for_each(e, a, c):
+        for x in drain(e, a[0]):
+            e.call_value(a[1], [x])
+        return UNIT
+    B['Iterator::for_each'] = it_for_each
+
+    def it_by_key(pick_max):
+        def f(e, a, c):
+            items = drain(e, a[0])
+            if not items:
+                return none()
+            best, bk = items[0], e.call_value(a[1], [Ref([items[0]], 0)])
+            for x in items[1:]:
+                k = e.call_value(a[1], [Ref([x], 0)])
+                r = e.cmp3(e, k, bk)
+                if (r >= 0) if pick_max else (r < 0):
+                    best, bk = x, k
+            return some(best)
+        return f
+    B['Iterator::max_by_key'] = it_by_key(True)
+    B['Iterator::min_by_key'] = it_by_key(False)
+
     def drain(e, it):
         out = []
         while True:
@@ -446,6 +502,25 @@ def register(E):
         items = drain(e, a[0])
         if 'collect::<Vec' in c or 'collect::<std::vec::Vec' in c:
             return VecV(items)
+        m_ = re.search(r'collect::<(?:std::collections::)?(BTreeSet|HashSet|BTreeMap|HashMap)<', c)
+        if m_:
+            mp_ = MapV()
+            mp_.hashed = m_.group(1).startswith('Hash')
+            for x in items:
+                if m_.group(1).endswith('Set'):
+                    i, found = locate(e, mp_, x)
+                    if not found:
+                        mp_.keys.insert(i, x)
+                        mp_.vals.insert(i, UNIT)
+                else:
+                    k, v_ = x.fields[0], x.fields[1]
+                    i, found = locate(e, mp_, k)
+                    if found:
+                        mp_.vals[i] = v_
+                    else:
+                        mp_.keys.insert(i, k)
+                        mp_.vals.insert(i, v_)
+            return mp_
         raise Unsupported('collect target ' + c)
     B['Iterator::collect'] = collect
 
@@ -585,6 +660,90 @@ def register(E):
         v = r.get()
         r.set(none())
         return v
+    B['Option::or_else'] = lambda e, a, c: a[0] if a[0].variant == 1 else e.call_value(a[1], [])
+    B['Option::or'] = lambda e, a, c: a[0] if a[0].variant == 1 else a[1]
+    B['Option::and'] = lambda e, a, c: a[1] if a[0].variant == 1 else none()
+    B['Option::zip'] = lambda e, a, c: some(Agg('tuple', None, [a[0].fields[0], a[1].fields[0]])) if (a[0].variant == 1 and a[1].variant == 1) else none()
+    B['Option::unwrap_or_else'] = unwrap_or_else
+    B['Option::flatten'] = lambda e, a, c: a[0].fields[0] if a[0].variant == 1 else none()
+    B['Option::is_some_and'] = lambda e, a, c: (e.branch(e.call_value(a[1], [a[0].fields[0]])) if a[0].variant == 1 else False)
+    B['Option::is_none_or'] = lambda e, a, c: (e.branch(e.call_value(a[1], [a[0].fields[0]])) if a[0].variant == 1 else True)
+
+    # ------------------------------------------------------------------ integer methods
+    U64_ = 2 ** 64
+
+    def checked(op):
+        def f(e, a, c):
+            x, y = a[0], a[1]
+            r = (x + y) if op == 'add' else (x - y) if op == 'sub' else None
+            if op == 'mul':
+                if is_sym(x) and is_sym(y):
+                    raise Unsupported('symbolic*symbolic')
+                r = x * y
+            bad = (r >= U64_) if op != 'sub' else (r < 0)
+            return none() if e.branch(bad) else some(r)
+        return f
+    for ty in ('usize', 'u64', 'u32'):
+        B['<impl %s>::checked_add' % ty] = checked('add')
+        B['<impl %s>::checked_sub' % ty] = checked('sub')
+        B['<impl %s>::checked_mul' % ty] = checked('mul')
+    B['checked_add'] = checked('add')
+    B['checked_sub'] = checked('sub')
+    B['checked_mul'] = checked('mul')
+
+    def saturating(op):
+        def f(e, a, c):
+            x, y = a[0], a[1]
+            if op == 'add':
+                r = x + y
+                return (U64_ - 1) if e.branch(r >= U64_) else r
+            r = x - y
+            return 0 if e.branch(r < 0) else r
+        return f
+    B['saturating_add'] = saturating('add')
+    B['saturating_sub'] = saturating('sub')
+
+    def int_min(e, a, c):
+        x, y = deref(a[0]), deref(a[1])
+        if is_sym(x) or is_sym(y):
+            return z3.If(x <= y, x, y)
+        return x if x <= y else y
+    B['Ord::min'] = int_min
+    B['std::cmp::min'] = int_min
+    B['core::cmp::min'] = int_min
+    B['min'] = int_min
+    B['std::cmp::max'] = ord_max
+    B['core::cmp::max'] = ord_max
+    B['max'] = ord_max
+
+    def abs_diff(e, a, c):
+        x, y = a[0], a[1]
+        if is_sym(x) or is_sym(y):
+            return z3.If(x >= y, x - y, y - x)
+        return abs(x - y)
+    B['abs_diff'] = abs_diff
+
+    def is_pow2(e, a, c):
+        x = a[0]
+        if is_sym(x):
+            return z3.Or(*[x == 2 ** k for k in range(0, 20)])
+        return x > 0 and x & (x - 1) == 0
+    B['is_power_of_two'] = is_pow2
+
+    def next_multiple_of(e, a, c):
+        x, m = a[0], a[1]
+        if is_sym(m):
+            raise Unsupported('next_multiple_of by a symbolic value')
+        return ((x + m - 1) / m * m) if is_sym(x) else (x + m - 1) // m * m
+    B['next_multiple_of'] = next_multiple_of
+
+    def div_ceil(e, a, c):
+        x, m = a[0], a[1]
+        if is_sym(m):
+            raise Unsupported('div_ceil by a symbolic value')
+        return ((x + m - 1) / m) if is_sym(x) else (x + m - 1) // m
+    B['div_ceil'] = div_ceil
+
     B['Option::is_some'] = lambda e, a, c: deref(a[0]).variant == 1
     B['Option::is_none'] = lambda e, a, c: deref(a[0]).variant == 0
     B['Option::map'] = lambda e, a, c: some(e.call_value(a[1], [a[0].fields[0]])) if a[0].variant == 1 else none()
